@@ -774,6 +774,29 @@ def wl_choice() -> Workflow:
     )
 
 
+def wl_synthetic(kind: str) -> Workflow:
+    """p (top level) with pre-declared synthetic children, then d after p.
+    after2[_fail|_failcont]: two parallel after-stages a1 (1 task; fails terminally in the _fail
+    variants) and a2 (2 tasks, finishes later); _failcont: p has continuePipelineOnFailure.
+    before1[_fail]: one before-stage b (fails terminally in the _fail variant)."""
+    from stabilize.models.stage import SyntheticStageOwner
+
+    fail = {"kind": "terminal"} if kind.endswith(("_fail", "_failcont")) else dict(OK)
+    pctx = {"continuePipelineOnFailure": True} if kind.endswith("_failcont") else None
+    p = stage("p", ctx=pctx)
+    kids: list[StageExecution] = []
+    if kind.startswith("after2"):
+        kids.append(stage("a1", tasks={"t1": fail}, synthetic_stage_owner=SyntheticStageOwner.STAGE_AFTER))
+        kids.append(stage("a2", tasks={"t1": dict(OK), "t2": dict(OK)}, synthetic_stage_owner=SyntheticStageOwner.STAGE_AFTER))
+    else:
+        kids.append(stage("b", tasks={"t1": fail}, synthetic_stage_owner=SyntheticStageOwner.STAGE_BEFORE))
+    d = stage("d", ["p"])
+    wf = workflow([p] + kids + [d])
+    for k in kids:
+        k.parent_stage_id = p.id
+    return wf
+
+
 WORKLOADS: dict[str, Callable[[], Workflow]] = {
     "chain2": lambda: wl_chain(2),
     "chain3": lambda: wl_chain(3),
@@ -796,6 +819,11 @@ WORKLOADS: dict[str, Callable[[], Workflow]] = {
     "suspend2": lambda: wl_suspend(signals=2),
     "mutex": wl_mutex,
     "choice": wl_choice,
+    "after2": lambda: wl_synthetic("after2"),
+    "after2_fail": lambda: wl_synthetic("after2_fail"),
+    "after2_failcont": lambda: wl_synthetic("after2_failcont"),
+    "before1": lambda: wl_synthetic("before1"),
+    "before1_fail": lambda: wl_synthetic("before1_fail"),
 }
 
 
